@@ -307,7 +307,14 @@ async fn process_bufs(
             }
         };
         let cc_fut = async { compressor_client.data(bufs_arc).await };
-        let (_, _) = tokio::try_join!(lsc_fut, cc_fut)?;
+        let (lsc_res, cc_res) = tokio::join!(lsc_fut, cc_fut);
+        cc_res?;
+        // Streaming logs to a listener is best effort; a listener that has
+        // gone away must not affect the task, so stop streaming to it.
+        if let Err(e) = lsc_res {
+            debug!(error = e.to_string(), "Log stream client disabled");
+            *log_stream_client = None;
+        }
     }
     if should_end {
         compressor_client.end().await?;
